@@ -103,6 +103,9 @@ def exact_groups(tier, seed):
             add(33, [(0, 0), (1, 0), (2, 1), (2, 2), (3, 2)], sds=seeds[:1])
             add(33, [(2, 1)], forms=(1,), sds=seeds[:1])
             if tier == "quick":
+                # one size of the 33..64 class whose halves are not multiples of the vector width (masked / remainder paths of the
+                # tmatmul and matmul kernels inside the block step)
+                add(rng.choice([40, 41, 42, 43, 56, 57, 58, 59]), [(0, 0)] if t == "float" else [(2, 1)], sds=seeds[:1])
                 add(65, [(0, 0), (2, 2)] if t == "float" else [(0, 0), (2, 1)], sds=seeds[:1])
                 if t == "double":
                     add(64, [(0, 0)], sds=seeds[:1])
